@@ -466,9 +466,13 @@ func (p *parser) InstantiateGenericFunction(genericFunc *ast.FuncDecl, genericTy
 	// add the instantiation to prevent recursion
 	genericFunc.Generic.Instantiations[genericModule] = append(genericFunc.Generic.Instantiations[genericModule], &decl)
 
+	// errors of the instantiation are collected and reported (if at all) at the call site,
+	// they must not mark the (maybe already parsed) module of the generic function as faulty
+	wasFaulty := genericFunc.Mod.Ast.Faulty
 	declParser.advance() // skip the colon for blockStatement()
 	decl.Body = declParser.blockStatement(declParser.scope()).(*ast.BlockStmt)
 	declParser.ensureReturnStatementPresent(&decl, decl.Body)
+	genericFunc.Mod.Ast.Faulty = wasFaulty
 
 	if errorCollector.DidError() {
 		// remove the instantiation as we errored
